@@ -33,10 +33,10 @@ type stackCfg struct {
 
 func factories(scheme string, msgLen int) (tss.KeyGenFactory, tss.SignerFactory) {
 	switch scheme {
-	case "bls":
+	case "bls-hello":
 		return func(id uint16) tss.KeyGenerator { return &bls.TBLS{Party: id, Logger: nopLogger{}} },
 			func(id uint16) tss.Signer { return newHelloSigner(id) }
-	case "bls-plain":
+	case "bls":
 		return func(id uint16) tss.KeyGenerator { return &bls.TBLS{Party: id, Logger: nopLogger{}} },
 			func(id uint16) tss.Signer { return &bls.TBLS{Party: id, Logger: nopLogger{}} }
 	case "ps":
@@ -248,7 +248,7 @@ func fastSignerScenario(r *prng.R, s *out.Sink) {
 
 func fastSignerAttempt(r *prng.R, s *out.Sink, attempt int) bool {
 	ids := []uint16{1, 2}
-	c := stackCfg{scheme: "bls-plain", mode: "loud", n: 2, t: 2, ids: ids, msgLen: 0}
+	c := stackCfg{scheme: "bls", mode: "loud", n: 2, t: 2, ids: ids, msgLen: 0}
 	net, nodes := buildStack(r, c)
 	defer net.stop()
 	res := keygenAll(nodes, ids, 2, 2, 60*time.Second)
@@ -354,6 +354,9 @@ func runFullStack(r *prng.R, s *out.Sink, tier string) {
 						ids[i] = uint16(i + 1)
 					}
 					c := stackCfg{scheme: scheme, mode: mode, n: x.n, t: x.t, ids: ids, msgLen: 2}
+					if scheme == "bls" {
+						c.scheme = "bls-hello" // orchestrated signing with the partial signer made interactive (see helloSigner)
+					}
 					desc := fmt.Sprintf("%s %s n=%d t=%d schedule#%d", scheme, mode, x.n, x.t, k)
 					net, nodes := buildStack(r, c)
 					res := keygenAll(nodes, ids, x.n, x.t, 60*time.Second)
